@@ -401,6 +401,13 @@ func (rs *ResourceSubscription) processGetResponse(payload []byte, err error) (n
 		for sub := range rs.subs {
 			nrs.subs[sub] = struct{}{}
 		}
+
+		// If a request for the normalized query is already in flight, its
+		// response will load all subscribers, including those copied over.
+		// Loading them here as well would load them twice.
+		if nrs.state == stateRequested {
+			return nrs, nil
+		}
 	} else {
 		nrs = rs
 	}
